@@ -41,9 +41,15 @@ type SortTuple struct {
 
 // Flush does nothing
 func (r QuantityReporter) Flush() error {
+	names := make([]string, 0, len(r.accumulator))
+	for k := range r.accumulator {
+		names = append(names, k)
+	}
+	// fixed starting order, so that the stable sort breaks ties by name
+	sort.Strings(names)
 	sortable := make([]SortTuple, 0, len(r.accumulator))
-	for k, v := range r.accumulator {
-		sortable = append(sortable, SortTuple{k, v})
+	for _, k := range names {
+		sortable = append(sortable, SortTuple{k, r.accumulator[k]})
 	}
 
 	if r.descending {
